@@ -317,12 +317,14 @@ def phases(ev):
             while j < len(ops) and not (ops[j][0] == "open" and ops[j][1] == "tmp:arc"):
                 j += 1
             out["mkroot"] = [j + 1]
-            mv = next(x for x in range(len(ops)) if ops[x][0] == "shutil.move")
-            sc = next((x for x in range(j + 1, mv) if ops[x][0] == "os.scandir"), mv - 1)
+            # (a library that no longer moves the archive has no such operation: the phases
+            #  that cannot be located are simply empty and resolve() falls back to "no fault")
+            mv = next((x for x in range(len(ops)) if ops[x][0] == "shutil.move"), len(ops))
+            sc = next((x for x in range(j + 1, mv) if ops[x][0] == "os.scandir"), max(j + 1, mv - 1))
             out["write"] = list(range(j + 2, sc + 1))
             out["archive"] = list(range(sc + 1, mv + 1))
-            out["move"] = [mv + 1]
-            out["cleanup"] = list(range(mv + 3, len(ops) + 1)) or [len(ops)]
+            out["move"] = [mv + 1] if mv < len(ops) else []
+            out["cleanup"] = list(range(mv + 3, len(ops) + 1))
     else:
         out["meta"] = [1]
         out["open"] = [2] if len(ops) >= 2 else [1]
@@ -335,7 +337,10 @@ def resolve(sym, ev, nfiles):
     ph, ix = sym
     if ph == "none":
         return 0
-    cand = phases(ev).get(ph) or []
+    try:
+        cand = [c for c in (phases(ev).get(ph) or []) if 1 <= c <= len(ev["ops"])]
+    except Exception:       # never let a StopIteration & co. escape into Pool.map
+        cand = []
     if not cand:
         return 0
     if ph in ("write", "parse") and nfiles > 1:
